@@ -108,7 +108,14 @@ def fixedGraphs : List Graph := [
   -- strings with the characters LIKE treats specially (backslash, %, _) and a quote, next to look-alikes without them
   ⟨[node 0 ["NodeKind1"] [("name", .str "C:\\Users\\bob")], node 1 ["NodeKind1"] [("name", .str "C:Users\\bob")], node 2 ["NodeKind2"] [("name", .str "a%b")],
     node 3 ["NodeKind2"] [("name", .str "axb")], node 4 [] [("name", .str "a_b")], node 5 [] [("name", .str "it's")]],
-   [edge 0 0 1 "EdgeKind1" [("name", .str "a\\b")]]⟩
+   [edge 0 0 1 "EdgeKind1" [("name", .str "a\\b")]]⟩,
+  -- ranked sources: NodeKind1 sources with pairwise different numbers of reachable NodeKind2 targets over EdgeKind1 (u0: 1, u1: 3, u2: 0) and a
+  -- tie pair (u3: 2, u4: 2); the minimum and the maximum are unique — on it the DIRECTION of `ORDER BY count … LIMIT k` decides which sources are returned
+  ⟨[node 0 ["NodeKind1"] [("name", .str "u0"), ("a", jInt 0)], node 1 ["NodeKind1"] [("name", .str "u1"), ("a", jInt 1)], node 2 ["NodeKind1"] [("name", .str "u2"), ("a", jInt 2)],
+    node 3 ["NodeKind1"] [("name", .str "u3"), ("a", jInt 3)], node 4 ["NodeKind1"] [("name", .str "u4"), ("a", jInt 4)],
+    node 5 ["NodeKind2"] [("name", .str "c0")], node 6 ["NodeKind2"] [("name", .str "c1")], node 7 ["NodeKind2"] [("name", .str "c2")],
+    node 8 ["NodeKind2"] [("name", .str "c3")], node 9 ["NodeKind2"] [("name", .str "c4")]],
+   [edge 0 0 5 "EdgeKind1", edge 1 1 5 "EdgeKind1", edge 2 1 6 "EdgeKind1", edge 3 1 7 "EdgeKind1", edge 4 3 8 "EdgeKind1", edge 5 3 9 "EdgeKind1", edge 6 4 8 "EdgeKind1", edge 7 4 9 "EdgeKind1"]⟩
 ]
 
 /-- node templates of the exhaustive family: distinct kinds and property shapes (string / number / missing / mixed) -/
